@@ -565,7 +565,7 @@ func check(r *core.Run) {
 	if r.Tier == "thorough" {
 		cfg = "MCSession_thorough.cfg"
 	}
-	r.Rule = "A: every history of up to 5 operations (thorough: 6 over reduced catalogues) over three catalogues of good texts; first catalogue: load(good text) for 10 (11) texts (identities + identityref; typedefs, grouping, uses, choice, rpc; a module importing both with chained augments, a deviation and a derived identity; a module including a submodule; that submodule; a second text defining an already used module name), load(bad text) for 4 kinds (syntax error; rejected after nested typedefs were registered; unknown top-level keyword; two-module text whose second module is rejected), Process and Query (Find incl. unwritten rpc input/output, GetErrors, namespace lookups) that ends with Process; each replayed on one Modules; after every Process the complete observable state (error texts, module keys, every path with kind, ReadOnly, namespace, instantiating module, config, defaults, DefaultValues, resolved type incl. identity values, identity value lists) is compared with a batch run of exactly the texts Session.tla says were accepted, on a fresh set. Non-trivial = at least two Process steps or three operations."
+	r.Rule = "A: every history of up to 5 operations (thorough: 6 over reduced catalogues) over three catalogues of good texts; first catalogue: load(good text) for 10 (11) texts (identities + identityref; typedefs, grouping, uses, choice, rpc; a module importing both with chained augments, a deviation and a derived identity; a module including a submodule; that submodule; a second text defining an already used module name), load(bad text) for 4 kinds (syntax error; rejected after nested typedefs were registered; unknown top-level keyword; two-module text whose second module is rejected), Process and Query (Find incl. unwritten rpc input/output, GetErrors, namespace lookups) that ends with Process; each replayed on one Modules; after every Process the complete observable state (error texts, module keys, every path with kind, ReadOnly, namespace, instantiating module, config, defaults, DefaultValues, resolved type incl. identity values, identity value lists) is compared with a batch run of exactly the texts Session.tla says were accepted, on a fresh set. Non-trivial = at least two Process steps or three operations. Reads are enabled at any time once a text is loaded. B: histories of 8-18 operations (loads of good and bad texts, Process, GetModule, ClearEntryCache, reads) over all catalogues at once, every operation a step of Session.tla (SessionTrace.tla)."
 	r.Exhaustive = true
 	r.Assumptions = []string{"Batch is computed by the real library on a fresh set (the statement defines the property that way); the specification decides which texts count"}
 	r.DirectionA("session", core.TLCOpts{Module: "MCSession", Cfg: cfg, Workers: 12, HeapGB: 16, Timeout: 0}, nil)
